@@ -6,6 +6,7 @@ Lines:
 * `init K`            – fresh recorder, devices `0 … K-1` are printed;          → `ok`
 * `rec d t c a p [ctx]` – `Record` (the state of its context is ignored);       → pending entry of `d`
 * `recn d n t c a p`  – `n` identical `Record` calls;                           → pending entry of `d`
+* `query d|- c|- a|- t p qlog|noqlog ans|noans` – the server handled a query (device, location, start, protocol); → pending entry of `d`
 * `begin [ctx]`       – `resetRecords` + entering `Upload`;                     → `blocked` | `batch …`
 * `ok i` / `fail i [err]` – the `i`-th in-flight upload returns nil / an error (any value); → `none` | `pend …`
 * `wire d n t c a p`  – `recordToProtobuf` of a record with `n` queries;         → `w d secs nanos c p a queries`
@@ -46,8 +47,9 @@ structure S where
 def S.st (s : S) : St := s.tab.toSt
 def S.set (s : S) (st : St) : S := { s with tab := Tab.ofSt s.k st }
 
+/-- The count is printed as the wire conversion reads it from the `int32` field (`= r.n` below 2³²). -/
 def showRec (d : Nat) (r : Rec) : String :=
-  s!"{d}:{r.n}:{r.m.time}:{r.m.ctry}:{r.m.asn}:{r.m.proto}"
+  s!"{d}:{toU32 (wrap32 r.n)}:{r.m.time}:{r.m.ctry}:{r.m.asn}:{r.m.proto}"
 
 def showRecs (k : Nat) (t : Recs) : String :=
   " ".intercalate ((List.range k).filterMap fun d => (t d).map (showRec d))
@@ -80,9 +82,16 @@ def step (s : S) : List String → S × String
     let st' := stepSer s.st (.record (nat! d) ⟨int! t, nat! c, nat! a, nat! p⟩)
     (s.set st', tag "pend" (showRecs s.k (fun k => if k = nat! d then st'.pending k else none)))
   | ["recn", d, n, t, c, a, p] =>
-    -- `n` identical `Record` calls, one model step each
-    let s' := Nat.repeat (fun x => x.set (stepSer x.st (.record (nat! d) ⟨int! t, nat! c, nat! a, nat! p⟩))) (nat! n) s
+    -- `n` identical `Record` calls in closed form (`bulk_eq_iterate`)
+    let s' := s.set (bulk s.st (nat! d) ⟨int! t, nat! c, nat! a, nat! p⟩ (nat! n))
     (s', tag "pend" (showRecs s.k (fun k => if k = nat! d then s'.st.pending k else none)))
+  | ["query", d, c, a, t, p, ql, an] =>
+    -- the server has handled a query (`mainmw.recordQueryInfo`)
+    let q : Query := { dev := if d = "-" then none else some (nat! d),
+                       loc := if c = "-" then none else some (nat! c, nat! a),
+                       start := int! t, proto := nat! p, qlog := ql = "qlog", answered := an = "ans" }
+    let st' := runSer s.st (lowerEv s.st (.query q))
+    (s.set st', tag "pend" (showRecs s.k (fun k => if some k = q.dev then st'.pending k else none)))
   | ["begin", _ctx] => beginOp s
   | ["begin"] => beginOp s
   | ["ok", i] =>
